@@ -21,13 +21,16 @@ plugin) and through arguments of plugin functions (all uses of the parameter), d
         SMember      only `x in S` tests                 SSize   only len()/truth value/any/all/sum
         SKeyOnly     id used as dict key / `in` on a dict / == comparison      SErrorOnly   only inside raise / logging
         SValuesOnly  .values() of the id-keyed dict      SDeleteOnly / SKeyedWrite   listing only deleted / one write per item
+                     (SDeleteOnly also for `v = list(<listing>)` + a loop over the once-bound local v that only deletes: Plugin.snapshot_delete)
         SIdSource    a uuid/random value that is only stored as the `id_` field of a model object (its reads are sites themselves)
         SExposed     anything else (fail-closed): iteration order or value may reach the output
         SModConst / SMemoPure / SModState   module-level state (emit_modstate): constant after import / pure memo / changed by a
                      function (NOT covered: the output may depend on what the process generated before)
 Plugins: the function exported as `generate` of each plugin, with the helper functions of the plugin package it calls (followed
 recursively, parameters bound to the arguments of each call; see Plugin.ownership for the order-of-effects argument): does an
-unconditional cleanup (a loop that only unlinks <dir>.glob(PAT)) complete before the first write, are the written names fixed
+unconditional cleanup (a loop that only unlinks <dir>.glob(PAT) — a method of a path object, directly or through a snapshot
+`v = list(<dir>.glob(PAT))`; NOT glob.glob(os.path.join(dir, PAT)) of the glob module, which reads the directory name as a pattern
+too and lists nothing in a directory called `out[1]`) complete before the first write, are the written names fixed
 string constants, do all written names match the cleaned pattern.  Writes are <path>.write_text/.write_bytes, open() in a
 writing mode, shutil / os copy-move-rename calls; a write whose file name cannot be resolved counts as not owned (fail-closed).
 usage: x_emit.py <out.v> <out.json>
@@ -454,8 +457,9 @@ class Plugin:
         """n = a directory-listing call.  -> (assignment, loop) when the code has the shape
 
                 v = list(<listing>)            # or tuple(..) / sorted(..), possibly nested; the ONLY binding of the local v
-                <statements without calls other than len(v) and logging calls>
-                for x in v: x.unlink()         # the only read of v besides len(v); body = deleters of the item and nothing else
+                <statements without calls other than logging calls (which may mention len(v))>
+                for x in v: x.unlink()         # the only read of v besides len(v) inside a logging call / a raise; body = deleters of
+                                               # the item and nothing else
                                                # (also `[x.unlink() for x in v]`, and v wrapped once more in list/tuple/sorted/iter/reversed)
 
         with both statements in the SAME statement list of the same function, else None.
@@ -464,7 +468,7 @@ class Plugin:
         (1) ORDER.  list/tuple/sorted return a sequence L whose elements are exactly the items the listing yields (a permutation of
             them for sorted).  v is a local that is bound exactly once (no other Store/Del of the name, not a parameter, no
             global/nonlocal, no nested scope or lambda mentions it), so every read of v sees L.  The reads are len(v) — a function of
-            the multiset — and ONE loop that applies a deleter to each element and does nothing else with it: the directory after
+            the multiset, and it only goes into a log message or an exception — and ONE loop that applies a deleter to each element and does nothing else with it: the directory after
             the loop is Emit.delete_all L f, which is the same for every permutation of L (Emit.glob_delete_invariant).  No name of
             L flows anywhere else (the loop variable is used only as the receiver / first argument of the deleter), so neither the
             order nor the names reach the output.
@@ -523,8 +527,9 @@ class Plugin:
                     return None
                 q_ = q_._parent
             p = x._parent
-            if isinstance(p, ast.Call) and isinstance(p.func, ast.Name) and p.func.id == "len" and len(p.args) == 1 and p.args[0] is x and not p.keywords:
-                continue
+            if isinstance(p, ast.Call) and isinstance(p.func, ast.Name) and p.func.id == "len" and len(p.args) == 1 and p.args[0] is x and not p.keywords \
+                    and self.in_raise_or_log(p):
+                continue                                    # the number of listed files, and only in a log message / an exception
             y = x
             w = self.copy_of(y)
             if w is None and isinstance(p, ast.Call) and isinstance(p.func, ast.Name) and p.func.id in ("iter", "reversed") and len(p.args) == 1 \
@@ -837,7 +842,8 @@ class Plugin:
         return None
 
     def cleanup_loops(self, g):
-        """[(node, [patterns])]: loops / comprehensions directly in g that only delete what <dir>.glob(PAT) lists"""
+        """[(node, [patterns])]: loops / comprehensions directly in g that only delete what <dir>.glob(PAT) lists, the listing
+        iterated directly or copied into a once-bound local first (snapshot_delete; node = the loop, where the deletions happen)"""
         res = []
 
         def path_glob(it):
@@ -936,7 +942,8 @@ class Plugin:
         unknown write (fail-closed).  Writes: <path>.write_text/.write_bytes with the file name resolved through local
         assignments and call arguments (unresolved = unknown name "?"), every open() in a writing or unknown mode and every
         copy / move / rename API (unknown name unless the path resolves).  Cleanups: loops that do nothing but delete
-        <dir>.glob(PAT).
+        <dir>.glob(PAT) of a path object (cleanup_loops; a snapshot `v = list(<dir>.glob(PAT))` followed by the delete-only loop
+        over v counts at the position of the loop, see snapshot_delete for the argument).
         POSITION of an effect = the chain of source positions (end of the call expression in the caller, ..., position of the
         effect in the innermost callee), compared lexicographically: everything a call does happens where the call ENDS (its
         receiver and arguments are evaluated before the callee runs), in the textual order of the callee's body.  Textual order
